@@ -1,6 +1,6 @@
 // C14 -- the server never sends unsolicited or surplus DNS answers; lazy mode holds back at most two queries.
 // Real iodined + 1..3 scripted sessions; pings, data, duplicates of pending queries (new id / other relay
-// address), tun arrivals, timer steps around the 20 ms send-real-soon timer.  Oracle: credit accounting of the
+// address), tun arrivals, upstream packets addressed to another session (forwarded by the server itself), timer steps around the 20 ms send-real-soon timer.  Oracle: credit accounting of the
 // wire monitor (sim/monitors.cc).
 #include "session_common.h"
 using namespace hz;
@@ -10,7 +10,7 @@ static CaseResult run_case(Tape &t)
 	CaseResult r;
 	ses::Profile P;
 	P.w_ping = 6; P.w_up = 5; P.w_offer = 3; P.w_adv = 4; P.w_nreq = 1; P.w_redeliver = 5; P.w_freeze = 1; P.w_rawmix = 1;
-	P.max_sessions = 3; P.max_body = 600;
+	P.max_sessions = 3; P.max_body = 600; P.c2c = true;
 	ses::Run R;
 	ses::run_sessions(t, P, R);
 	r.render = R.render;
@@ -25,6 +25,7 @@ static CaseResult run_case(Tape &t)
 	if (R.wm.max_held >= 2) r.cls("two-held");
 	if (R.peers.size() > 1) r.cls("multi-session");
 	if (R.n_raw) r.cls("raw-mode-frames-mixed-in");
+	if (R.n_c2c) r.cls("client-to-client-packets");
 	return r;
 }
 
